@@ -92,6 +92,33 @@ Proof.
     { intros udp st1 H1 Hc. destruct (resolve_tcp d ts st1) as [[xs0 st'']|e] eqn:E; [|discriminate].
       inversion H1; subst. destruct (IH _ _ _ E) as (I1 & I2 & I3). cbn [map t_addr t_cluster].
       repeat split; congruence. }
+    destruct (owned_by_other st (t_cluster t) (t_addr t)); [discriminate|].
+    destruct (known_proto st (t_addr t)) as [p|].
+    + destruct ((p =? 0) || (p =? 1)); [discriminate|]. exact (Fin (p =? 3) st H eq_refl).
+    + destruct (build_listener d _) as [l|e]; [|discriminate].
+      exact (Fin false (push_listener st l) H (push_listener_clusters st l)).
+Qed.
+
+(** no accepted TCP/UDP frontend sits on an address that an earlier cluster declared *)
+Lemma owned_by_other_clusters : forall st st' cid a, ls_clusters st' = ls_clusters st ->
+  owned_by_other st' cid a = owned_by_other st cid a.
+Proof. intros st st' cid a E. unfold owned_by_other. now rewrite E. Qed.
+
+Lemma resolve_tcp_unowned : forall d ts st xs st', resolve_tcp d ts st = Ok (xs, st') ->
+  Forall (fun t => owned_by_other st (t_cluster t) (t_addr t) = false) ts.
+Proof.
+  intros d ts; induction ts as [|t ts IH]; intros st xs st' H; cbn [resolve_tcp] in H.
+  - constructor.
+  - destruct (owned_by_other st (t_cluster t) (t_addr t)) eqn:Eo; [discriminate|].
+    assert (Fin : forall udp st1,
+             match resolve_tcp d ts st1 with
+             | Ok (xs0, st'') => Ok (mk_tfront udp (t_cluster t) (t_addr t) (t_tags t) :: xs0, st'')
+             | Err e => Err e
+             end = Ok (xs, st') -> ls_clusters st1 = ls_clusters st ->
+             Forall (fun t0 => owned_by_other st (t_cluster t0) (t_addr t0) = false) (t :: ts)).
+    { intros udp st1 H1 Hc. destruct (resolve_tcp d ts st1) as [[xs0 st'']|e] eqn:E; [|discriminate].
+      constructor; [exact Eo|]. eapply Forall_impl; [|exact (IH _ _ _ E)].
+      intros t0 H0. cbv beta in H0. now rewrite (owned_by_other_clusters st st1) in H0. }
     destruct (known_proto st (t_addr t)) as [p|].
     + destruct ((p =? 0) || (p =? 1)); [discriminate|]. exact (Fin (p =? 3) st H eq_refl).
     + destruct (build_listener d _) as [l|e]; [|discriminate].
